@@ -50,6 +50,23 @@ OneControlOK ==
         IF Bden(x) = 0 THEN E.cvPriceN[c] = SumSeq(y)
         ELSE /\ \A k \in 1..N : E.adjN[c][k] = Adj(x, y, k)
              /\ E.cvPriceN[c] = SumSeq(y)
+\* two controls: b = Cxx^-1 Cxy on the n^2-scaled covariances; adjusted sample times det * n.
+\* Named branch of the code (accepted): if any entry of the controls' covariance matrix vanishes the controls are
+\* ignored (b = 0); a singular matrix (det = 0) is not judged.
+Cov(u, v) == N * SumSeq(Mul(u, v)) - SumSeq(u) * SumSeq(v)
+Adj2(x1, x2, y, k) ==
+    LET c11 == Cov(x1, x1) c22 == Cov(x2, x2) c12 == Cov(x1, x2) cy1 == Cov(x1, y) cy2 == Cov(x2, y)
+        det == c11 * c22 - c12 * c12
+        b1 == c22 * cy1 - c12 * cy2
+        b2 == c11 * cy2 - c12 * cy1
+    IN IF c11 = 0 \/ c22 = 0 \/ c12 = 0 THEN y[k] * det * N
+       ELSE y[k] * det * N - b1 * (N * x1[k] - SumSeq(x1)) - b2 * (N * x2[k] - SumSeq(x2))
+Small(x) == x < 200000 /\ x > -200000
+TwoControlsOK ==
+    H.ncv # 2 \/ \A c \in 1..H.dim :
+        LET x1 == H.xs[1][c] x2 == H.xs[2][c] y == H.ys[c]
+            det == Cov(x1, x1) * Cov(x2, x2) - Cov(x1, x2) * Cov(x1, x2) IN
+        det = 0 \/ ~Small(det * N) \/ \A k \in 1..N : E.adj2N[c][k] = Adj2(x1, x2, y, k)
 \* any number of controls priced at their sample means: mean unchanged, variance not larger
 ControlsOK ==
     H.ncv = 0 \/ \A c \in 1..H.dim : E.cvPriceN[c] = SumSeq(H.ys[c]) /\ E.cvVarQ[c] <= E.rawVarQ[c] + 1
@@ -59,7 +76,7 @@ RetStep ==
     /\ Judge(<< <<"Numeric", E.bad = 0>>,
                 <<"PriceIsMeanOverExactlyNPaths", E.bad # 0 \/ RawOK>>,
                 <<"ErrorIsUnbiasedStdOverSqrtN", E.bad # 0 \/ ErrOK>>,
-                <<"ControlVariateAdjustment", E.bad # 0 \/ (OneControlOK /\ ControlsOK)>> >>)
+                <<"ControlVariateAdjustment", E.bad # 0 \/ (OneControlOK /\ TwoControlsOK /\ ControlsOK)>> >>)
     /\ ln' = ln + 1 /\ UNCHANGED <<tid, fin, stored>>
 RaiseStep ==
     /\ More /\ E.e = "Raise"
